@@ -485,6 +485,15 @@ func rangeLoops(f *ssa.Function, field, meth string) []*ssa.BasicBlock {
 			continue
 		}
 		src := flow.ResolveLoad(ln.Call.Args[0])
+		// a helper of the same type that returns exactly the elements of the field admitted by MatchMethod stands
+		// for the field itself plus the per-element MatchMethod test
+		if hc, ok := src.(*ssa.Call); ok {
+			if g := flow.StaticCallee(&hc.Call); g != nil {
+				if _, isFilter := matchFilterSummary(g, field); isFilter && len(hc.Call.Args) > 0 {
+					src = &ssa.UnOp{Op: token.MUL, X: &ssa.FieldAddr{X: hc.Call.Args[0], Field: fieldIndexOf(hc.Call.Args[0].Type(), field)}}
+				}
+			}
+		}
 		if ld, ok := src.(*ssa.UnOp); ok && ld.Op == token.MUL {
 			if fa, ok := ld.X.(*ssa.FieldAddr); ok && flow.FieldName(fa.X.Type(), fa.Field) == field {
 				// body (true successor region) contains meth invoke
@@ -798,4 +807,155 @@ func checkNoDoubleWalk(c *Ctx, res *report.Result, rule string, f, cb *ssa.Funct
 		}
 		res.Check(twice == "", rule, name+": a subtree walked by the callback itself is not walked again", instrPos(c.Prog, call), "every return after the recursive call is Skip or Stop", "after the recursive "+name+" call the callback can return Continue ("+twice+"): the library then descends into the same events and translates them a second time")
 	}
+}
+
+func fieldIndexOf(t types.Type, field string) int {
+	if p, ok := t.Underlying().(*types.Pointer); ok {
+		t = p.Elem()
+	}
+	st, ok := t.Underlying().(*types.Struct)
+	if !ok {
+		return 0
+	}
+	for i := 0; i < st.NumFields(); i++ {
+		if st.Field(i).Name() == field {
+			return i
+		}
+	}
+	return 0
+}
+
+// matchFilterSummary: g is a method whose result is exactly "the elements of receiver.<field>, in order, for which
+// element.MatchMethod(p) is true", p a parameter of g. Returns the index of p among g's parameters. Recognised
+// shape: one range loop over the field; one append, of the range element, whose block is entered on the true side
+// of the element's MatchMethod(p); every return yields the accumulated slice; the loop has no other exit.
+// Where the accumulator starts (a fresh slice, or a re-sliced view of the field) does not matter here - an in-place
+// filter is a state write and is the statelessness rule's business.
+func matchFilterSummary(g *ssa.Function, field string) (int, bool) {
+	if g == nil || len(g.Blocks) == 0 || g.Signature.Recv() == nil || len(g.Params) < 2 {
+		return 0, false
+	}
+	recv := g.Params[0]
+	isFieldLoad := func(v ssa.Value) bool {
+		ld, ok := flow.ResolveLoad(v).(*ssa.UnOp)
+		if !ok || ld.Op != token.MUL {
+			return false
+		}
+		fa, ok := ld.X.(*ssa.FieldAddr)
+		return ok && flow.FieldName(fa.X.Type(), fa.Field) == field && flow.Strip(flow.ResolveLoad(fa.X)) == ssa.Value(recv)
+	}
+	var appends []*ssa.Call
+	loops := 0
+	for _, b := range g.Blocks {
+		if iff := lastIfOf(b); iff != nil {
+			if bo, ok := iff.Cond.(*ssa.BinOp); ok && bo.Op == token.LSS {
+				if ln, ok := bo.Y.(*ssa.Call); ok {
+					if bi, ok := ln.Call.Value.(*ssa.Builtin); ok && bi.Name() == "len" && isFieldLoad(ln.Call.Args[0]) {
+						loops++
+					}
+				}
+			}
+		}
+		for _, ins := range b.Instrs {
+			if call, ok := ins.(*ssa.Call); ok {
+				if bi, ok := call.Call.Value.(*ssa.Builtin); ok && bi.Name() == "append" {
+					appends = append(appends, call)
+				}
+			}
+			switch ins.(type) {
+			case *ssa.Go, *ssa.Defer, *ssa.Panic, *ssa.Select, *ssa.Send:
+				return 0, false
+			}
+		}
+	}
+	if loops != 1 || len(appends) != 1 {
+		return 0, false
+	}
+	ap := appends[0]
+	// the appended element
+	var elem ssa.Value
+	if sl, ok := ap.Call.Args[1].(*ssa.Slice); ok {
+		if al, ok := sl.X.(*ssa.Alloc); ok {
+			n := 0
+			for _, r := range *al.Referrers() {
+				if ia, ok := r.(*ssa.IndexAddr); ok {
+					for _, rr := range *ia.Referrers() {
+						if st, ok := rr.(*ssa.Store); ok && st.Addr == ssa.Value(ia) {
+							elem = st.Val
+							n++
+						}
+					}
+				}
+			}
+			if n != 1 {
+				return 0, false
+			}
+		}
+	}
+	if elem == nil {
+		return 0, false
+	}
+	eld, ok := elem.(*ssa.UnOp)
+	if !ok || eld.Op != token.MUL {
+		return 0, false
+	}
+	eia, ok := eld.X.(*ssa.IndexAddr)
+	if !ok || !isFieldLoad(eia.X) {
+		return 0, false
+	}
+	// guarded by elem.MatchMethod(param) == true, and by nothing else but the loop test
+	pidx := -1
+	for _, gd := range flow.NormGuards(flow.Guards(ap.Block())) {
+		if call, ok := gd.Cond.(*ssa.Call); ok && call.Call.IsInvoke() && call.Call.Method.Name() == "MatchMethod" {
+			if !gd.Side || call.Call.Value != elem || len(call.Call.Args) != 1 {
+				return 0, false
+			}
+			for i, p := range g.Params {
+				if call.Call.Args[0] == ssa.Value(p) {
+					pidx = i
+				}
+			}
+			continue
+		}
+		if bo, ok := gd.Cond.(*ssa.BinOp); ok && bo.Op == token.LSS && gd.Side {
+			continue // the range test
+		}
+		return 0, false
+	}
+	if pidx < 0 {
+		return 0, false
+	}
+	// every return yields the accumulator
+	acc := map[ssa.Value]bool{ssa.Value(ap): true}
+	var grow func(v ssa.Value, d int)
+	grow = func(v ssa.Value, d int) {
+		if d > 6 || acc[v] && d > 0 {
+			return
+		}
+		acc[v] = true
+		if ph, ok := v.(*ssa.Phi); ok {
+			for _, e := range ph.Edges {
+				grow(e, d+1)
+			}
+		}
+	}
+	grow(ap.Call.Args[0], 0)
+	nret := 0
+	for _, b := range g.Blocks {
+		for _, ins := range b.Instrs {
+			if ret, ok := ins.(*ssa.Return); ok {
+				nret++
+				if len(ret.Results) != 1 || !acc[ret.Results[0]] {
+					return 0, false
+				}
+				// not from inside the loop body (an early exit would drop admitted elements)
+				for _, gd := range flow.NormGuards(flow.Guards(b)) {
+					if call, ok := gd.Cond.(*ssa.Call); ok && call.Call.IsInvoke() && call.Call.Method.Name() == "MatchMethod" {
+						return 0, false
+					}
+				}
+			}
+		}
+	}
+	return pidx, nret > 0
 }
